@@ -47,7 +47,7 @@ def prove(ctx, kr, what, claim, timeout_ms=20000):
     """claim must hold for all values on this path (negation unsat)."""
     kr.obligations += 1
     ctx.solver.push()
-    ctx.solver.set('timeout', timeout_ms)
+    ctx.solver.set('timeout', min(timeout_ms, 2500))
     t0 = time.perf_counter()
     try:
         r = ctx.check(z3.Not(claim))
@@ -57,6 +57,17 @@ def prove(ctx, kr, what, claim, timeout_ms=20000):
         model = ctx.solver.model() if r == 'sat' else None
         ctx.solver.pop()
         ctx.solver.set('timeout', 10000)
+    if r == 'unknown':
+        # the incremental core is weak on nonlinear integer arithmetic: one-shot solver (nlsat portfolio) on the same assertions
+        t0 = time.perf_counter()
+        s2 = z3.Solver()
+        s2.set('timeout', timeout_ms)
+        s2.add(ctx.solver.assertions())
+        s2.add(z3.Not(claim))
+        r = str(s2.check())
+        kr.solver_s += time.perf_counter() - t0
+        kr.queries += 1
+        model = s2.model() if r == 'sat' else None
     if r == 'unsat':
         kr.discharged += 1
         return True
@@ -490,6 +501,372 @@ def pick_terms(terms, m):
     for q in range(len(terms) - 2, -1, -1):
         t = z3.If(m == q, terms[q], t)
     return t
+
+
+def twin_file(ctx, fabs, name, max_nf=4096):
+    """A second file holding the same boxes (same index ranges and extents) with its own component count and header lengths."""
+    twins = []
+    for k, f in enumerate(fabs):
+        t = KFab('%s%d' % (name, k), f.nd, ctx, max_nf=max_nf)
+        t.lo, t.n = f.lo, f.n
+        t.cells = f.cells
+        twins.append(t)
+    for t in twins[1:]:
+        t.nf = twins[0].nf
+    return twins
+
+
+def sym_comps(ctx, prefix, count, nf):
+    out = []
+    for q in range(count):
+        c = core.integer('%s%d' % (prefix, q))
+        ctx.assume(c.t >= 0)
+        ctx.assume(c.t < nf.t)
+        out.append(c)
+    return out
+
+
+# ---------------------------------------------------------------------------------------------------------------
+# K-combine: parallel_combine_by_binfile / parallel_combine_by_boxes_offsets
+
+@lemma('k_combine')
+def k_combine(rep):
+    mods = common.mods()
+    cm = mods['amr_kitchen.combine.combine']
+    kr = KResult('K-combine', ['combine.parallel_combine_by_binfile', 'combine.parallel_combine_by_boxes_offsets', 'utils.indices_from_header', 'utils.header_from_indices'],
+                 {'FABs per file': '1..3, independent extents 1..2^20', 'nf1, nf2': '1..4096 each', 'selected components': '1..2 symbolic indices per side',
+                  'second input': 'same on-disk order (by_binfile) / any order, located by offset (by_boxes_offsets)'})
+    import itertools
+    nd = 3
+    for worker in ('byfile', 'bybox'):
+        for m in (1, 2, 3):
+            orders = [tuple(range(m))] if worker == 'byfile' else list(itertools.permutations(range(m)))
+            for order2 in orders:
+                for canary in ((False, True) if (m == 2 and order2 == tuple(range(m))[::-1] or m == 2 and worker == 'byfile') else (False,)):
+                    def path(ctx, worker=worker, m=m, order2=order2, canary=canary):
+                        fabs1 = [KFab('a%d' % k, nd, ctx) for k in range(m)]
+                        for f in fabs1[1:]:
+                            f.nf = fabs1[0].nf
+                        kf1 = KFile('in1', fabs1)
+                        tw = twin_file(ctx, fabs1, 'b')
+                        # the second input stores the same boxes in the order `order2`
+                        kf2 = KFile('in2', [tw[k] for k in order2])
+                        kfs = KFS()
+                        kfs.add('in1', kf1)
+                        kfs.add('in2', kf2)
+                        v1 = sym_comps(ctx, 'v1_', 2, fabs1[0].nf)
+                        v2 = sym_comps(ctx, 'v2_', 1, tw[0].nf)
+                        if worker == 'byfile':
+                            args = {'bfile_r1': 'in1', 'bfile_r2': 'in2', 'bfile_w': 'out', 'vidxs1': v1, 'vidxs2': v2}
+                            with kpatched(mods, kfs), common.quiet():
+                                offs = cm.parallel_combine_by_binfile(args)
+                        else:
+                            args = {'bfile_r1': 'in1', 'bfile_r2': ['in2'] * m, 'offst_r2': [S(tw[k].start) for k in range(m)], 'bfile_w': 'out', 'vidxs1': v1, 'vidxs2': v2}
+                            with kpatched(mods, kfs), common.quiet():
+                                offs = cm.parallel_combine_by_boxes_offsets(args)
+                        what = 'K-combine %s m=%d order2 %s' % (worker, m, order2)
+                        out = kfs.files.get('out')
+                        kr.obligations += 1
+                        if out is None or len(out.writes) != 2 * m or not isinstance(offs, list) or len(offs) != m:
+                            kr.failed.append('%s: %s writes, %s offsets' % (what, len(out.writes) if out else None, len(offs) if isinstance(offs, list) else offs))
+                            return
+                        kr.discharged += 1
+                        for k in range(m):
+                            hdr, reg = out.writes[2 * k], out.writes[2 * k + 1]
+                            if hdr[0] != 'hdr' or reg[0] != 'region' or len(reg[2].parts) != 2:
+                                kr.obligations += 1
+                                kr.failed.append('%s: box %d is not written as header + two regions' % (what, k))
+                                return
+                            prove(ctx, kr, '%s: returned offset %d is where the header was written' % (what, k), I(offs[k]) == hdr[1])
+                            want_h = fabs1[k].header(nf=3)
+                            kr.obligations += 1
+                            if hdr[2] == want_h:
+                                kr.discharged += 1
+                            else:
+                                kr.failed.append('%s: header of box %d is %r, expected %r' % (what, k, hdr[2][-70:], want_h[-70:]))
+                            for side, (part, src, comps, kfile) in enumerate(zip(reg[2].parts, (fabs1[k], tw[k]), (v1, v2), (kf1, kf2))):
+                                side_obligations(ctx, kr, part, what)
+                                kr.obligations += 1
+                                if part.file is not kfile:
+                                    kr.failed.append('%s: box %d side %d comes from the other input' % (what, k, side))
+                                    continue
+                                kr.discharged += 1
+                                want_shape = tuple(src.n) + (len(comps),)
+                                if not shape_equal(ctx, kr, part.shape, want_shape, '%s box %d side %d' % (what, k, side)):
+                                    continue
+                                idx = fresh_index(ctx, 'q%d_%d' % (k, side), want_shape)
+                                want = src.elem_addr(idx[:nd], pick_terms([c.t for c in comps], idx[-1]))
+                                if canary and k == m - 1 and side == 1:
+                                    want = want + 8
+                                n0 = len(kr.failed)
+                                ok = prove(ctx, kr, '%s box %d side %d: element address' % (what, k, side), part.at(idx) == want)
+                                if canary and k == m - 1 and side == 1:
+                                    kr.canary = (kr.canary is not False) and (not ok)
+                                    del kr.failed[n0:]
+                                    kr.obligations -= 1
+                    run_lemma(kr, path)
+    rep.kernel_lemmas.append(kr.as_dict())
+    merge(rep, kr)
+
+
+# ---------------------------------------------------------------------------------------------------------------
+# K-whip: readfieldfrombinfile
+
+@lemma('k_whip')
+def k_whip(rep):
+    mods = common.mods()
+    wm = mods['amr_kitchen.whip.cli']
+    kr = KResult('K-whip', ['whip.cli.readfieldfrombinfile', 'utils.indices_from_header'],
+                 {'FABs per file': '1..3, independent extents 1..2^20', 'nf': '1..4096', 'field index': 'symbolic'})
+    nd = 3
+    for m in (1, 2, 3):
+        for canary in ((False, True) if m == 2 else (False,)):
+            def path(ctx, m=m, canary=canary):
+                kf, fabs = make_file(ctx, m, nd)
+                kfs = KFS()
+                kfs.add('file', kf)
+                nf = fabs[0].nf
+                c = core.integer('field')
+                ctx.assume(c.t >= 0)
+                ctx.assume(c.t < nf.t)
+                with kpatched(mods, kfs), common.quiet():
+                    indexes, arrays = wm.readfieldfrombinfile({'N_FIELDS': nf, 'FIELD_INDEX': c, 'fname': 'file'})
+                what = 'K-whip m=%d' % m
+                kr.obligations += 1
+                if len(arrays) != m or len(indexes) != m or not all(isinstance(a, LV) for a in arrays):
+                    kr.failed.append('%s: %d arrays / %d index pairs for %d FABs' % (what, len(arrays), len(indexes), m))
+                    return
+                kr.discharged += 1
+                for k, (a, ix, fab) in enumerate(zip(arrays, indexes, fabs)):
+                    side_obligations(ctx, kr, a, what)
+                    for d in range(nd):
+                        prove(ctx, kr, '%s FAB %d: returned index range' % (what, k), z3.And(I(ix[0][d]) == fab.lo[d].t, I(ix[1][d]) == I(fab.hi[d])))
+                    if not shape_equal(ctx, kr, a.shape, tuple(fab.n), '%s FAB %d' % (what, k)):
+                        return
+                    idx = fresh_index(ctx, 'q%d' % k, tuple(fab.n))
+                    want = fab.elem_addr(idx, c.t)
+                    if canary and k == 1:
+                        want = want + 8
+                    n0 = len(kr.failed)
+                    ok = prove(ctx, kr, '%s FAB %d: element address' % (what, k), a.at(idx) == want)
+                    if canary and k == 1:
+                        kr.canary = (kr.canary is not False) and (not ok)
+                        del kr.failed[n0:]
+                        kr.obligations -= 1
+            run_lemma(kr, path)
+    rep.kernel_lemmas.append(kr.as_dict())
+    merge(rep, kr)
+
+
+# ---------------------------------------------------------------------------------------------------------------
+# K-ghost: write_plt_bin_from_chk (ghost stripping, subset concatenation, offsets)
+
+@lemma('k_ghost')
+def k_ghost(rep):
+    mods = common.mods()
+    cm = mods['amr_kitchen.chk2plt.chk2plt']
+    from symx import npfacade
+    kr = KResult('K-ghost', ['chk2plt.write_plt_bin_from_chk', 'utils.shape_from_header', 'utils.header_from_indices'],
+                 {'state FABs per file': '1..2, interior extents 1..2^20, ghost g symbolic 1..8 (same on every axis)', 'nf_state': '8..4096', 'subsets': 'gradp (3) and I_R (symbolic count) located by offset in other files',
+                  'flooring': 'off (the rescaling is arithmetic, covered by Tier T)'})
+    nd = 3
+    for m in (1, 2):
+        for do_gradp, do_ir in ((True, True), (True, False), (False, False)):
+            for canary in ((False, True) if (m == 2 and do_gradp and do_ir) else (False,)):
+                def path(ctx, m=m, do_gradp=do_gradp, do_ir=do_ir, canary=canary):
+                    g = core.integer('ghost')
+                    ctx.assume(g.t >= 1)
+                    ctx.assume(g.t <= 8)
+                    inner = [KFab('box%d' % k, nd, ctx, max_nf=4096) for k in range(m)]
+                    for f in inner[1:]:
+                        f.nf = inner[0].nf
+                    ctx.assume(inner[0].nf.t >= 8)
+                    # the state FABs are the boxes grown by g ghost cells
+                    state = []
+                    for k, f in enumerate(inner):
+                        sfab = KFab('st%d' % k, nd, ctx, max_nf=4096)
+                        sfab.nf = inner[0].nf
+                        sfab.lo = [S(f.lo[d].t - g.t) for d in range(nd)]
+                        sfab.n = [core.SymInt(f.n[d].t + 2 * g.t) for d in range(nd)]
+                        cells = z3.IntVal(1)
+                        for d in range(nd):
+                            cells = cells * sfab.n[d].t
+                        sfab.cells = cells
+                        state.append(sfab)
+                    kst = KFile('state', state)
+                    gp = twin_file(ctx, inner, 'gp', max_nf=3)
+                    for t in gp:
+                        ctx.assume(t.nf.t == 3)
+                    ir = twin_file(ctx, inner, 'ir', max_nf=64)
+                    kgp = KFile('gradp', gp[::-1])        # other on-disk order, located by offset
+                    kir = KFile('I_R', ir)
+                    kfs = KFS()
+                    kfs.add('state', kst)
+                    kfs.add('gradp', kgp)
+                    kfs.add('I_R', kir)
+                    idxs = [npfacade.objarr([npfacade.objarr(list(f.lo)), npfacade.objarr(list(f.hi))]) for f in inner]
+                    args = ('state', ['gradp'] * m, ['I_R'] * m, idxs, [S(t.start) for t in gp], [S(t.start) for t in ir], 'out',
+                            {'Y_start': 4, 'Y_end': -3}, do_gradp, do_ir, False)
+                    with kpatched(mods, kfs), common.quiet():
+                        offs, mins, maxs = cm.write_plt_bin_from_chk(args)
+                    what = 'K-ghost m=%d gradp=%s I_R=%s' % (m, do_gradp, do_ir)
+                    out = kfs.files.get('out')
+                    kr.obligations += 1
+                    if out is None or len(out.writes) != 2 * m or len(offs) != m:
+                        kr.failed.append('%s: %s writes, %s offsets' % (what, len(out.writes) if out else None, len(offs)))
+                        return
+                    kr.discharged += 1
+                    for k in range(m):
+                        hdr, reg = out.writes[2 * k], out.writes[2 * k + 1]
+                        if hdr[0] != 'hdr' or reg[0] != 'region' or len(reg[2].parts) != 1:
+                            kr.obligations += 1
+                            kr.failed.append('%s: box %d is not written as header + one region' % (what, k))
+                            return
+                        prove(ctx, kr, '%s: returned offset %d is where the header was written' % (what, k), I(offs[k]) == hdr[1])
+                        view = reg[2].parts[0]
+                        side_obligations(ctx, kr, view, what)
+                        nfs = inner[0].nf.t
+                        total = nfs + (3 if do_gradp else 0) + (ir[0].nf.t if do_ir else 0)
+                        want_shape = tuple(inner[k].n) + (S(total),)
+                        if not shape_equal(ctx, kr, view.shape, want_shape, '%s box %d' % (what, k)):
+                            return
+                        idx = fresh_index(ctx, 'q%d' % k, want_shape)
+                        c = idx[-1]
+                        cell = idx[:nd]
+                        want = state[k].elem_addr(tuple(cell[d] + g.t for d in range(nd)), c)
+                        if do_gradp:
+                            w2 = gp[k].elem_addr(cell, c - nfs)
+                            if do_ir:
+                                w2 = z3.If(c < nfs + 3, w2, ir[k].elem_addr(cell, c - nfs - 3))
+                            want = z3.If(c < nfs, want, w2)
+                        if canary and k == 1:
+                            want = want + 8
+                        n0 = len(kr.failed)
+                        ok = prove(ctx, kr, '%s box %d: element address' % (what, k), view.at(idx) == want)
+                        if canary and k == 1:
+                            kr.canary = (kr.canary is not False) and (not ok)
+                            del kr.failed[n0:]
+                            kr.obligations -= 1
+                run_lemma(kr, path)
+    rep.kernel_lemmas.append(kr.as_dict())
+    merge(rep, kr)
+
+
+# ---------------------------------------------------------------------------------------------------------------
+# K-expand: mandoline.utils.expand_array (2D) and utils.expand_array3d
+
+@lemma('k_expand')
+def k_expand(rep):
+    mods = common.mods()
+    mu = mods['amr_kitchen.mandoline.utils']
+    ut = mods['amr_kitchen.utils']
+    kr = KResult('K-expand', ['mandoline.utils.expand_array', 'utils.expand_array3d'],
+                 {'array extents': '1..2^20 per axis (symbolic)', 'factor': '1, 2, 4, 8', 'claim': 'exp[i, j(, k)] is arr[i // f, j // f(, k // f)] for every index'})
+    for f in (1, 2, 4, 8):
+        for canary in ((False, True) if f == 2 else (False,)):
+            def path(ctx, f=f, canary=canary):
+                n = [core.integer('n%d' % d) for d in range(2)]
+                for x in n:
+                    ctx.assume(x.t >= 1)
+                    ctx.assume(x.t <= 2 ** 20)
+                kf = KFile('a', [])
+                arr = LV(kf, tuple(n), lambda idx: kf.gbase + 8 * (idx[0] + n[0].t * idx[1]), 'array')
+                with kpatched(mods, KFS()), common.quiet():
+                    exp = mu.expand_array(arr, f)
+                what = 'K-expand 2D factor %d' % f
+                if not isinstance(exp, LV):
+                    kr.obligations += 1
+                    kr.failed.append('%s: returned %s' % (what, type(exp).__name__))
+                    return
+                side_obligations(ctx, kr, exp, what)
+                want_shape = (S(n[0].t * f), S(n[1].t * f))
+                if not shape_equal(ctx, kr, exp.shape, want_shape, what):
+                    return
+                idx = fresh_index(ctx, 'q', want_shape)
+                src = exp.src(idx)
+                want = (klv.divmod_sym(idx[0], f)[0], klv.divmod_sym(idx[1] + (1 if canary else 0), f)[0])
+                n0 = len(kr.failed)
+                ok = src is not None and prove(ctx, kr, '%s: index map' % what, z3.And(src[0] == want[0], src[1] == want[1]), timeout_ms=20000)
+                if canary:
+                    kr.canary = (kr.canary is not False) and (not ok)
+                    del kr.failed[n0:]
+                    del kr.inconclusive[:]
+                    kr.obligations -= 1
+            run_lemma(kr, path)
+
+            def path3(ctx, f=f):
+                n = [core.integer('n%d' % d) for d in range(3)]
+                for x in n:
+                    ctx.assume(x.t >= 1)
+                    ctx.assume(x.t <= 2 ** 20)
+                kf = KFile('a', [])
+                arr = LV(kf, tuple(n), lambda idx: kf.gbase + 8 * (idx[0] + n[0].t * (idx[1] + n[1].t * idx[2])), 'array')
+                with kpatched(mods, KFS()), common.quiet():
+                    exp = ut.expand_array3d(arr, f)
+                what = 'K-expand 3D factor %d' % f
+                if not isinstance(exp, LV):
+                    kr.obligations += 1
+                    kr.failed.append('%s: returned %s' % (what, type(exp).__name__))
+                    return
+                side_obligations(ctx, kr, exp, what)
+                want_shape = tuple(S(n[d].t * f) for d in range(3))
+                if not shape_equal(ctx, kr, exp.shape, want_shape, what):
+                    return
+                idx = fresh_index(ctx, 'q', want_shape)
+                src = exp.src(idx)
+                prove(ctx, kr, '%s: index map' % what, z3.And(*[src[d] == klv.divmod_sym(idx[d], f)[0] for d in range(3)]), timeout_ms=20000)
+            if not canary:
+                run_lemma(kr, path3)
+    rep.kernel_lemmas.append(kr.as_dict())
+    merge(rep, kr)
+
+
+# ---------------------------------------------------------------------------------------------------------------
+# K-pestle-seek: increment_sum (the finest level worker): which bytes are summed
+
+@lemma('k_pestle')
+def k_pestle(rep):
+    mods = common.mods()
+    pm = mods['amr_kitchen.pestle.pestle']
+    from symx import lv as L
+    kr = KResult('K-pestle-seek', ['pestle.increment_sum', 'utils.shape_from_header'],
+                 {'box extents': '1..2^20', 'nf': '1..4096', 'id_int, id_vol': 'symbolic component indices', 'offset': 'any FAB of a 2-FAB file'})
+    for use_vol in (False, True):
+        for which in (0, 1):
+            def path(ctx, use_vol=use_vol, which=which):
+                kf, fabs = make_file(ctx, 2, 3)
+                kfs = KFS()
+                kfs.add('file', kf)
+                nf = fabs[0].nf
+                ci = sym_comps(ctx, 'id_int', 1, nf)[0]
+                cv = sym_comps(ctx, 'id_vol', 1, nf)[0] if use_vol else None
+                fab = fabs[which]
+                with kpatched(mods, kfs), common.quiet():
+                    r = pm.increment_sum({'file': 'file', 'offset': S(fab.start), 'id_vol': cv, 'id_int': ci, 'dV': 0.125})
+                what = 'K-pestle-seek volfrac=%s FAB %d' % (use_vol, which)
+                views = []
+
+                def collect(e):
+                    if isinstance(e, L.LV):
+                        views.append(e)
+                    elif isinstance(e, L.KExpr):
+                        for a in e.args:
+                            collect(a)
+                collect(r)
+                kr.obligations += 1
+                if len(views) != (2 if use_vol else 1):
+                    kr.failed.append('%s: the result combines %d views' % (what, len(views)))
+                    return
+                kr.discharged += 1
+                for v, comp in zip(views, [ci] + ([cv] if use_vol else [])):
+                    side_obligations(ctx, kr, v, what)
+                    if not shape_equal(ctx, kr, v.shape, tuple(fab.n), what):
+                        return
+                    idx = fresh_index(ctx, 'q%d' % id(v), tuple(fab.n))
+                    prove(ctx, kr, '%s: element address' % what, v.at(idx) == fab.elem_addr(idx, comp.t))
+            run_lemma(kr, path)
+    rep.kernel_lemmas.append(kr.as_dict())
+    merge(rep, kr)
 
 
 def pick(sel, m):
